@@ -160,7 +160,10 @@ def run():
         "discarded_panic_items": stats["discarded_items"], "panic_results_recorded": stats["panic_results"],
         "exhaustive": True,
         "rule": "gen: every text over the 20-class alphabet up to length L1 x {whole, every single cut, every pair of cuts} "
-                "x 12 histories (+ Reset;NewInput loading for 3 of them); every structured text of a 9-class alphabet of "
+                "x 12 histories (+ Reset;NewInput loading for 3 of them); after 22 long histories (earlier successful / rejected / "
+                "abandoned texts of 20..47 runes, which fill the lexer's 20-rune look-back ring): every text of <= 2 classes, "
+                "every text whose first class is read by looking behind (- * / : . + op) and all seed texts, whole and cut "
+                "behind the first character; every structured text of a 9-class alphabet of "
                 "length L3 (thorough also: 14-class alphabet, length 5, 1 in 24; 9-class, length 5, 1 in 2, and length 6, 1 in 24; every text of "
                 "4 classes over the 20-class alphabet, 1 in 8 of them with the full product) x all cuts on a "
                 "fresh parser + every history whole and with one cut set; "
